@@ -350,13 +350,14 @@ type Span struct {
 
 // CR3Opts tunes DrawCR3.
 type CR3Opts struct {
-	CMT      [4][]byte
-	XMP      []byte
-	Preview  []byte
-	Surround bool // random extra boxes inside moov / the Canon uuid / after the standard ones
-	Use64    bool // allow 64-bit box headers
-	Brands   int  // further compatible brands in ftyp (cameras write two)
-	TopExtra bool // unknown/free boxes between any two top-level boxes (also right after ftyp)
+	CMT           [4][]byte
+	XMP           []byte
+	Preview       []byte
+	Surround      bool // random extra boxes inside moov / the Canon uuid / after the standard ones
+	Use64         bool // allow 64-bit box headers
+	Brands        int  // further compatible brands in ftyp (cameras write two)
+	BrandsNoMajor bool // the compatible brands do not repeat the major brand
+	TopExtra      bool // unknown/free boxes between any two top-level boxes (also right after ftyp)
 	// CTBO: 0 = four records and count 4; otherwise records = 4 + CTBO%4 (index fields 1, 2, ...) and
 	// the count field = records + CTBO/4 (a count that says more than the box holds when CTBO >= 4)
 	CTBO int
@@ -438,8 +439,11 @@ func DrawCR3(l *core.Lane, o CR3Opts) *CR3 {
 		}
 	}
 	compat := []byte("crx isom")
+	if o.BrandsNoMajor {
+		compat = []byte("isom") // the major brand is not repeated among the compatible ones
+	}
 	for i := 0; i < o.Brands; i++ {
-		compat = append(compat, []string{"mif1", "miaf", "heic", "avif", "MiHB", "iso8", "mp41"}[i%7]...)
+		compat = append(compat, []string{"mif1", "miaf", "heic", "avif", "MiHB", "iso8", "mp41", "heix", "msf1", "mp42", "hevc", "MiPr"}[i%12]...)
 	}
 	ftyp := Box("ftyp", []byte("crx "), be32(1), compat)
 	out := append([]byte(nil), ftyp...)
@@ -964,6 +968,7 @@ func RepeatCR3(o RepeatOpts) []byte {
 // 1: a CR3 moov box holding n minimal preview uuid boxes (a PRVW header and nothing else)
 // 2: a JPEG with n tiny XMP APP1 segments
 // 3: an XMP packet with n date properties whose value is a date followed by junk bytes
+// 4: a CR3 with n minimal CMT boxes; 5: a JPEG with n minimal Exif segments; 6: an XMP array of n items
 func ManyTiny(kind, sub, n, junk int) []byte {
 	switch kind {
 	case 0:
@@ -995,6 +1000,40 @@ func ManyTiny(kind, sub, n, junk int) []byte {
 		out = append(out, 0xff, 0xdb, 0, 67)
 		out = append(out, make([]byte, 65)...)
 		return append(out, make([]byte, 128)...)
+	case 4:
+		// a CR3 whose Canon uuid box holds n minimal CMT boxes (a TIFF header and an empty directory)
+		one := Box("CMT"+string(rune('1'+sub%4)), []byte("II*\x00\x08\x00\x00\x00\x00\x00\x00\x00\x00\x00"))
+		inner := Box("CNCV", []byte("CanonCR3_001/00.09.00/00.00.00"))
+		for i := 0; i < n; i++ {
+			inner = append(inner, one...)
+		}
+		out := Box("ftyp", []byte("crx "), be32(1), []byte("crx isom"))
+		out = append(out, Box("moov", Box("uuid", uuidCanonMeta, inner))...)
+		return append(out, Box("mdat", make([]byte, 64))...)
+	case 5:
+		// a JPEG with n minimal Exif APP1 segments
+		out := []byte{0xff, 0xd8}
+		pkt := []byte("Exif\x00\x00II*\x00\x08\x00\x00\x00\x00\x00\x00\x00\x00\x00")
+		for i := 0; i < n; i++ {
+			out = append(out, 0xff, 0xe1, byte((len(pkt)+2)>>8), byte(len(pkt)+2))
+			out = append(out, pkt...)
+		}
+		out = append(out, 0xff, 0xdb, 0, 67)
+		out = append(out, make([]byte, 65)...)
+		return append(out, make([]byte, 128)...)
+	case 6:
+		// an XMP packet whose dc:title (sub 0), dc:subject (1) or dc:creator (2) array holds n items
+		prop := []string{"dc:title", "dc:subject", "dc:creator"}[sub%3]
+		arr := []string{"rdf:Alt", "rdf:Bag", "rdf:Seq"}[sub%3]
+		out := []byte("<x:xmpmeta xmlns:x='adobe:ns:meta/'><rdf:RDF xmlns:rdf='http://www.w3.org/1999/02/22-rdf-syntax-ns#'><rdf:Description rdf:about='' xmlns:dc='http://purl.org/dc/elements/1.1/'><" + prop + "><" + arr + ">")
+		for i := 0; i < n; i++ {
+			if sub%3 == 0 {
+				out = append(out, "<rdf:li xml:lang='x-default'>t</rdf:li>"...)
+			} else {
+				out = append(out, "<rdf:li>t</rdf:li>"...)
+			}
+		}
+		return append(out, "</"+arr+"></"+prop+"></rdf:Description></rdf:RDF></x:xmpmeta>"...)
 	default:
 		j := make([]byte, junk)
 		for i := range j {
